@@ -84,3 +84,11 @@ Print Assumptions c16_uint.
 Print Assumptions c16_uint_no_edge_ws.
 Print Assumptions c16_oracle_sound.
 Print Assumptions c16_oracle_complete.
+
+(* THE TIE OF THE MODEL'S CONSTANT TABLES TO THE SOURCE: Gen/TablesSrc.v is regenerated from /repo by tools/tables2coq.py on every run *)
+From ZV Require Import Sanitize Flow TablesSrc TablesTie.
+Theorem c16_sanitizer_presets_as_in_source :
+  semver_str = src_sanitizer_semver_str /\ pep440_local_str = src_sanitizer_pep440_local_str /\ uint_sanitizer = src_sanitizer_uint /\
+  key_sanitizer = src_sanitizer_key /\ forall sep lower keep mx, custom_str sep lower keep mx = src_sanitizer_str sep lower keep mx.
+Proof. exact sanitizer_presets_as_source. Qed.
+Print Assumptions c16_sanitizer_presets_as_in_source.
